@@ -937,7 +937,7 @@ def normalise(prog, ref):
         return q.split("#")[0]
 
     def is_new(g):
-        return base(g.qual) not in ref_funcs
+        return base(g.qual) not in ref_funcs and not g.qual.startswith("#")
 
     any_new = any(is_new(f) for f in prog.functions.values() if f.module.kind in ("py", "pyx"))
     # 1. inlining of new helpers (a few rounds: helpers may call helpers)
@@ -983,6 +983,49 @@ def normalise(prog, ref):
                     lst.remove(g)
                 absorbed.append(q)
         stats["#absorbed"] = absorbed
+    # 1b. new module-level scalar constants (`MAX_COVERAGE = 23`) are folded back into the functions of their module
+    for m in prog.modules.values():
+        if m.kind not in ("py", "pyx"):
+            continue
+        known = ref.get("#globals:" + m.name)
+        if known is None:
+            continue
+        consts = {}
+        stores = {}
+        for n in ast.walk(m.tree):
+            if isinstance(n, ast.Name) and isinstance(n.ctx, (ast.Store, ast.Del)):
+                stores[n.id] = stores.get(n.id, 0) + 1
+        for s_ in m.tree.body:
+            if isinstance(s_, ast.Assign) and len(s_.targets) == 1 and isinstance(s_.targets[0], ast.Name) and isinstance(s_.value, ast.Constant) and isinstance(s_.value.value, (int, float, str, bool)):
+                nm = s_.targets[0].id
+                if nm not in known and stores.get(nm) == 1:
+                    consts[nm] = s_.value
+        if not consts:
+            continue
+        for fi in prog.functions.values():
+            if fi.module is not m:
+                continue
+            bound = _names_bound(fi.node)
+            use = {k: v for k, v in consts.items() if k not in bound}
+            if use and any(isinstance(n, ast.Name) and n.id in use for n in ast.walk(fi.node)):
+                _Subst(use).visit(fi.node)
+                # f"...{CONST}..." with a constant inside becomes plain text again
+                for js in [x for x in ast.walk(fi.node) if isinstance(x, ast.JoinedStr)]:
+                    vals = []
+                    for v in js.values:
+                        if isinstance(v, ast.FormattedValue) and isinstance(v.value, ast.Constant) and v.conversion == -1 and v.format_spec is None:
+                            vals.append(ast.Constant(value=str(v.value.value)))
+                        else:
+                            vals.append(v)
+                    merged = []
+                    for v in vals:
+                        if merged and isinstance(v, ast.Constant) and isinstance(merged[-1], ast.Constant) and isinstance(v.value, str) and isinstance(merged[-1].value, str):
+                            merged[-1] = ast.Constant(value=merged[-1].value + v.value)
+                        else:
+                            merged.append(v)
+                    js.values = merged
+                set_parents(fi.node)
+                stats.setdefault("#constants", []).append("%s:%s" % (fi.qual, ",".join(sorted(use))))
     # 2./3. per function: new constant loops, new temporaries
     mconsts = {}
     for fi in list(prog.functions.values()):
